@@ -142,22 +142,34 @@ func c07Reply(out *vh.Out, c *vdmarc.Case, seedOK bool) {
 
 	// ---- monitor ----
 	e := c.Expectation()
+	flagged := obs == "accept 1"
 	if e.CheckFate {
-		want := e.Fate
-		if want == "quarantine" && c.PriorQ {
-			want = "accept" // the flag is already set; it must stay set
+		bad := ""
+		switch e.Fate {
+		case "temp", "perm":
+			if got != e.Fate {
+				bad = got
+			}
+		case "quarantine":
+			if bodyErr != nil || !flagged {
+				bad = got
+			}
+		case "accept":
+			switch {
+			case bodyErr != nil:
+				bad = got
+			case flagged && !c.PriorQ:
+				bad = "quarantine"
+			case !flagged && c.PriorQ:
+				out.Violation("C07/earlier-quarantine-lost", op, "message flagged by an earlier check arrives unflagged")
+			}
 		}
-		if want == "accept" && c.PriorQ && obs != "accept 1" {
-			out.Violation("C07/earlier-quarantine-lost", op, "message flagged by an earlier check arrives unflagged: "+obs)
-		} else if got != want {
-			out.Violation("C07/reply-"+want+"-expected-got-"+got, op, fmt.Sprintf("pipeline: %s; expected %s: %s", obs, e.Fate, e.Why))
+		if bad != "" {
+			out.Violation("C07/reply-"+e.Fate+"-expected-got-"+bad, op, fmt.Sprintf("pipeline: %s; expected %s: %s", obs, e.Fate, e.Why))
 		}
 	}
 	if e.CheckPass && verdict != "" && (verdict == "pass") != e.Pass {
 		out.Violation("C07/recorded-verdict-wrong", op, fmt.Sprintf("Authentication-Results says dmarc=%s; expected pass=%v: %s", verdict, e.Pass, e.Why))
-	}
-	if e.CheckPass && e.Pass && got != "accept" {
-		out.Violation("C07/pass-not-accepted", op, "aligned pass but "+obs)
 	}
 	out.Stat("reply." + strings.ReplaceAll(obs, " ", "_"))
 	if e.CheckFate {
@@ -180,6 +192,9 @@ func TestVerifC07Reply(t *testing.T) {
 		return
 	}
 	r := vh.NewRng(vh.Seed() + 73)
+	for _, c := range vdmarc.Corpus() {
+		c07Reply(out, c, seedOK)
+	}
 	n := vh.N(20000) / 4
 	for i := 0; i < n; i++ {
 		c07Reply(out, vdmarc.Random(r), seedOK)
